@@ -352,3 +352,14 @@ class PosInf(object):
 
 
 INF = PosInf()
+
+
+class PyFunc(object):
+    """a callable supplied by a check (model of a library object): fn(interp, args, kwargs)"""
+
+    def __init__(self, fn, name='pyfunc'):
+        self.fn = fn
+        self.name = name
+
+    def __repr__(self):
+        return '<pyfunc %s>' % self.name
